@@ -1,5 +1,7 @@
 import Generated.Facts
+import Generated.Trans
 import Model.Frame
+import Proofs.Frame
 /-
 Tie obligations for C05: the constants the theorems were proved over are the constants
 extracted from /repo/compress on this run.
@@ -22,3 +24,25 @@ theorem tie_C05_methods :
     Generated.compress_encodings =
       [("encodedNone", (methodByte 0).toNat), ("encodedLZ4", (methodByte 1).toNat),
        ("encodedLZ4HC", (methodByte 2).toNat), ("encodedZSTD", (methodByte 3).toNat)] := by decide
+
+/-! ### `(*compress.Reader).Read` translated from the working tree (Generated/Trans.lean) = `Model.Frame.read` -/
+
+open Model Model.Frame in
+theorem tie_C05_read (c : Codec) (s : RState) (k : Nat) : Generated.Trans.Reader.read c s k = Model.Frame.read c s k := by
+  unfold Generated.Trans.Reader.read Model.Frame.read readBlockP readBlockErr
+  by_cases hp : s.pos ≥ s.data.length
+  · simp only [hp, decide_true, if_true]
+    rcases hrb : readBlock c s with ⟨s', r⟩
+    cases r with
+    | ok u => cases u; simp
+    | error e =>
+      obtain ⟨hd, hpz⟩ := readBlock_error_clears c s e s' hrb
+      cases s'
+      simp_all
+  · simp [hp]
+
+/-- the error branch of `Read` drops the decode buffer and rewinds before it returns the error (the equation above holds
+relative to a `readBlock` primitive that already includes this; here it is pinned in the source itself) -/
+theorem tie_C05_read_error_branch :
+    Generated.Trans.Reader.readErrorBranch =
+      ["r.data = r.data[:0]", "r.pos = 0", "return 0, errors.Wrap(err, \"read next block\")"] := by decide
